@@ -124,11 +124,35 @@ def run_shard(sh):
         if len(tfs) > 1:
             ss = sorted(ref.canonical(t, dict(i)) for t, i in tfs)
             rec.violation("equal-sids-with-different-type-or-fields", "pair", ss[:2], sorted(map(str, tfs)), "one (type, fields)")
-    rec.extra = {"eq_groups": len(groups[0]), "typefield_groups": len(groups[1])}
+    # cross-shard: hash of the Sid (what sets and dictionaries use) against (type, fields), merged by the driver
+    import zlib
+    rec.extra = {"eq_groups": len(groups[0]), "typefield_groups": len(groups[1]),
+                 "hash_table": [[hash(sid) & 0xFFFFFFFFFFFF, zlib.crc32(repr(sorted(tfs)).encode())] for sid, tfs in groups[0].items()]}
     return rec.result()
 
 
+def post(m, results, tier, seed):
+    """x == y <=> (type, fields) equal, across shards: two Sids with different (type, fields) must not share a hash+uri
+    class; checked through the per-shard hash tables (equal Sids hash equally, so equal Sids of different shards would
+    show up as one hash with two (type, fields) digests)."""
+    seen = {}
+    clash = 0
+    for r in results:
+        for h, tf in r["extra"].get("hash_table", []):
+            if h in seen and seen[h] != tf:
+                clash += 1
+            seen.setdefault(h, tf)
+        r["extra"].pop("hash_table", None)
+    m["extra"] = [{"sids_in_cross_shard_table": len(seen), "hash_classes_with_two_type_field_sets": clash}]
+    if clash:
+        sig = "hash-class-with-different-type-or-fields-across-shards"
+        m["violations"][sig] = [{"signature": sig, "kind": "cross", "case": clash, "observed": clash, "expected": 0, "note": ""}]
+        m["viol_count"][sig] += clash
+
+
 def replay_case(kind, case):
+    if kind == "cross":
+        return [dict(signature="hash-class-with-different-type-or-fields-across-shards", observed=case, expected=0)]
     from mc.ref.model import Conf
     ref = Conf()
     if kind == "pair":
@@ -142,4 +166,4 @@ def replay_case(kind, case):
 
 
 def coverage(m, tier, seed):
-    return {"bounds": params(tier), "exhaustive": True}
+    return {"bounds": params(tier), "exhaustive": True, "cross_shard": m["extra"][:1]}
